@@ -356,7 +356,7 @@ fn run(run: &mut Run) {
     run.explore("raw-proto-raw", run.tier.pick(300_000, 3_000_000), 1200, &forward_case);
     // the same, each case in a thread of its own (per-thread state of the code starts from scratch)
     run.explore_fresh("raw-proto-raw", run.tier.pick(3_000, 40_000), 1200, &forward_case);
-    run.explore("raw-proto-raw-deep-chains", run.tier.pick(6_000, 60_000), 1200, &deep_case);
+    run.explore("raw-proto-raw-deep-chains", run.tier.pick(6_000, 60_000), 2500, &deep_case);
     run.explore("proto-raw-proto", run.tier.pick(300_000, 3_000_000), 1200, &backward_case);
     // the same, each case in a thread of its own (per-thread state of the code starts from scratch)
     run.explore_fresh("proto-raw-proto", run.tier.pick(3_000, 40_000), 1200, &backward_case);
